@@ -262,7 +262,7 @@ fn check_mutator(env: &Env, op: &Op, deep: bool, uni: &[String]) -> Result<bool,
     Ok(not_supported)
 }
 
-const RULE: &str = "fixture folder /verif/fixture_embed (18 files, nesting 5, dotted / prefix-sharing / multi-byte / spaced names, empty and binary files) embedded with rust-embed in the release harness; EXHAUSTIVE path set: every file and implied directory, the root, and for each entry the siblings with one character added/removed/changed, 'name.', 'name..', '.name', upper-case variant, paths one and two levels below files, absent children; plus random paths over the fixture's components; on every path every observer (exists,is_file,is_dir,metadata,read,read_to_string,read_dir,walk_dir) is compared with (a) an independent model from a raw std::fs walk and (b) PhysicalFS on the same folder; every mutator and timestamp setter (16 calls per path) must be an Err (NotSupported whenever the call would succeed with an effect on a writable backend; the only accepted Ok are no-op successes such as remove_dir_all on an absent path and create_dir_all on the root) and must leave the full snapshot unchanged; non-trivial = (path, op) with the path being the root, a near-miss of an existing name, or below a file";
+const RULE: &str = "fixture folder /verif/fixture_embed (203 files, nesting 5, dotted / prefix-sharing / multi-byte / spaced names, empty and binary files, a directory below a same-named directory, a 32-entry and a 145-entry directory, files of every length 0..130 and around 256..8192); a second embedded type (fixture_embed2) constructed first and the Default constructor are compared with their folders; embedded with rust-embed in the release harness; EXHAUSTIVE path set: every file and implied directory, the root, and for each entry the siblings with one character added/removed/changed, 'name.', 'name..', '.name', upper-case variant, paths one and two levels below files, absent children; plus random paths over the fixture's components; on every path every observer (exists,is_file,is_dir,metadata,read,read_to_string,read_dir,walk_dir) is compared with (a) an independent model from a raw std::fs walk and (b) PhysicalFS on the same folder; every mutator and timestamp setter (16 calls per path) must be an Err (NotSupported whenever the call would succeed with an effect on a writable backend; the only accepted Ok are no-op successes such as remove_dir_all on an absent path and create_dir_all on the root) and must leave the full snapshot unchanged; non-trivial = (path, op) with the path being the root, a near-miss of an existing name, or below a file";
 
 pub fn replay(v: &Value) -> CaseResult {
     let env = env().map_err(|m| Failure { message: m, replay: v.clone() })?;
